@@ -26,7 +26,7 @@ from functools import reduce
 import numpy as np
 from strawberryfields import ops
 from strawberryfields.program import Program
-from strawberryfields.parameters import par_is_symbolic, FreeParameter
+from strawberryfields.parameters import par_evaluate, par_is_symbolic, FreeParameter
 from strawberryfields.program_utils import CircuitError
 
 
@@ -594,7 +594,16 @@ class TDMProgram(Program):
 
         for i, _ in enumerate(params):
             if par_is_symbolic(params[i]):
-                params[i] = self.parameters[params[i].name][t % self.timebins]
+                if isinstance(params[i], FreeParameter):
+                    params[i] = self.parameters[params[i].name][t % self.timebins]
+                else:
+                    # an expression of looped-over parameters (e.g., after a decomposition)
+                    values = {
+                        a: self.parameters[a.name][t % self.timebins]
+                        for a in params[i].atoms(FreeParameter)
+                        if a.name in self.parameters
+                    }
+                    params[i] = par_evaluate(params[i].subs(values))
 
         # copy the operation, so that its inverse flag and measurement options are kept
         op = copy.copy(cmd.op)
